@@ -161,6 +161,7 @@ type c10Ver struct {
 	Mode  string // "" | GOVERNANCE | COMPLIANCE
 	Until time.Time
 	Kind  string
+	Extra string // version id of an additional, unprotected version of the same key (versioned buckets)
 }
 
 func (v *c10Ver) protectedFor(now time.Time, hasBypass bool) (bool, string) {
@@ -275,6 +276,16 @@ func (c10) Exec(c *core.Case) (out *core.Outcome) {
 				v.Mode, v.Until = mode, until.Truncate(time.Second)
 			}
 		}
+		if p.Versioned && (i+int(c.Seed))%2 == 0 {
+			// an unprotected sibling version of the same key
+			if strings.HasPrefix(pr.Kind, "default-") {
+				// (written after the default rule was cleared)
+			}
+			xr := root.Do(s3c.PutObject(bkt, key, []byte("unprotected sibling version")))
+			if xr.Resp.OK() {
+				v.Extra = xr.Resp.Get("X-Amz-Version-Id")
+			}
+		}
 		vers = append(vers, v)
 	}
 	actor := func(a string) (*env.Client, bool, string) {
@@ -371,6 +382,15 @@ func (c10) Exec(c *core.Case) (out *core.Outcome) {
 				d := s3c.DelObj{Key: tv.Key}
 				if p.Versioned {
 					d.VersionID = tv.VID
+				}
+				if p.Versioned && tv.Extra != "" {
+					x := s3c.DelObj{Key: tv.Key, VersionID: tv.Extra}
+					if op.Hours%2 == 0 {
+						objs = append(objs, x, d) // the unprotected version first
+					} else {
+						objs = append(objs, d, x)
+					}
+					continue
 				}
 				objs = append(objs, d)
 			}
